@@ -44,9 +44,9 @@ PROPERTIES = {
     "C01": {
         "components": [("variant", 400, 60000), ("dem", 250, 40000), ("dex", 150, 20000), ("repair", 150, 20000)],
         "rule": OPS_RULE + "the call returned offspring (variant/dem), the mask is observable (dex), a bound is violated (repair)",
-        "explanation": "theorem offspring_in_bounds: every offspring coordinate is in [xl,xu] for all F, gamma, differences, masks and draws in [0,1); correspondence: selection matrix, repaired mutants and trials equal the Lean model bit for bit; the oracle checks the real floats against the bounds",
+        "explanation": "theorem offspring_in_bounds: every offspring coordinate is in [xl,xu] for all F, gamma, differences, masks and draws in [0,1); C01b (rounding after every operation, assumed only monotone, exact on the bounds and 0, relative error <= u): the violated bound is never crossed for any draw (bounceLow_near / bounceUp_near / randLow_near / randUp_near), midway stays inside on both sides (midLow_in_bounds / midUp_in_bounds), and bounce-back / rand-init do not cross the far bound for every draw with r(1+u)^2 <= 1, i.e. every value of NumPy's 53-bit grid but the largest (…_far); correspondence: selection matrix, repaired mutants and trials equal the Lean model bit for bit; the oracle checks the real floats against the bounds",
         "assumptions": ["parents in bounds", "draws in [0,1)", "pymoo PM keeps in-bounds vectors in bounds (checked on every record)",
-                        "IEEE rounding of bounce-back/rand-init cannot cross a bound (argued in DESIGN.md, checked on every record)"],
+                        "IEEE rounding of bounce-back/rand-init cannot cross a bound: proved in C01b under an abstract monotone rounding for every draw except the largest grid value 1 - 2^-53, which is argued in DESIGN.md and checked on every record"],
     },
     "C09": {
         "components": [("des", 600, 100000), ("variant", 200, 30000)],
